@@ -124,7 +124,8 @@ type Round struct {
 	Trig     int   // 0 programmatic Reload(), 1 SIGHUP
 	Beh      []int // behaviour of reload hook i in this round (missing = ok)
 	CancelAt int   // index of the reload hook during which the stop signal arrives, -1 = none
-	Pair     bool  // programmatic only: the next round is started while this one is inside its first hook
+	Pair     bool  // the next round is started while this one is inside its first hook
+	CtxEnds  bool  `json:",omitempty"` // second (programmatic) round of a pair: its context ends while it waits its turn
 }
 
 type Scenario struct {
@@ -143,6 +144,10 @@ type Scenario struct {
 	LateReg bool `json:",omitempty"`
 	// ByDeadline: the stop signal is the expiry of a deadline on the lifecycle context, not a cancel.
 	ByDeadline bool `json:",omitempty"`
+	// ShortWrite: the server's write timeout (120 ms) is shorter than the shutdown timeout, handlers lift
+	// their write deadline, and the requests released "during the drain" are released only 250 ms into it.
+	// Effective only when nothing else waits (no hook that holds on, no request that is never released).
+	ShortWrite bool `json:",omitempty"`
 	Metrics    bool
 	Tracing    bool
 	Listen     int
@@ -153,6 +158,28 @@ type Scenario struct {
 	Stops      []int
 	Reqs       []Rel
 	Rounds     []Round
+}
+
+func (sc *Scenario) shortWrite() bool {
+	// (no observability at all: its response-writer wrapper does not let a handler lift its write deadline)
+	if !sc.ShortWrite || sc.hasBlockShut() || sc.slowStop() >= 0 || sc.Metrics || sc.Tracing || sc.MetDead {
+		return false
+	}
+	for _, b := range sc.Starts {
+		if isPanic(b) {
+			return false // (the model's "startup logs held back" after such a panic presupposes a logger)
+		}
+	}
+	d := false
+	for _, q := range sc.Reqs {
+		if q.Kind == "N" || (q.Kind == "H" && q.J >= len(sc.Shuts)) {
+			return false
+		}
+		if q.Kind == "D" {
+			d = true
+		}
+	}
+	return d
 }
 
 func (sc *Scenario) lateReg() bool { return sc.LateReg && len(sc.Starts) > 0 }
@@ -211,7 +238,7 @@ func (sc *Scenario) needsSerial() bool {
 }
 
 func (sc *Scenario) tokens(l *hx.Line) {
-	l.Tok("P").Nat(sc.Proto).Tok("X").Nat(sc.LateHup).Bool(sc.MetDead).Bool(sc.metricsRace()).Bool(sc.lateReg()).Bool(sc.ByDeadline).Bool(sc.Metrics).Bool(sc.Tracing).Nat(sc.Listen)
+	l.Tok("P").Nat(sc.Proto).Tok("X").Nat(sc.LateHup).Bool(sc.MetDead).Bool(sc.metricsRace()).Bool(sc.lateReg()).Bool(sc.ByDeadline).Bool(sc.shortWrite()).Bool(sc.Metrics).Bool(sc.Tracing).Nat(sc.Listen)
 	ints := func(xs []int) {
 		l.Nat(len(xs))
 		for _, x := range xs {
@@ -230,6 +257,8 @@ func (sc *Scenario) tokens(l *hx.Line) {
 			l.Tok("H").Nat(q.J)
 		case "D":
 			l.Tok("D")
+		case "J":
+			l.Tok("J")
 		default:
 			l.Tok("N")
 		}
@@ -243,7 +272,7 @@ func (sc *Scenario) tokens(l *hx.Line) {
 		} else {
 			l.Bool(false)
 		}
-		l.Bool(r.Pair)
+		l.Bool(r.Pair).Bool(r.CtxEnds)
 	}
 }
 
@@ -556,6 +585,21 @@ func (r *runner) timingForced() bool {
 			x = -1 // no wait in this scenario
 		}
 	}
+	if r.sc.shortWrite() && bstar < 0 && !stuck {
+		// the one wait of the scenario is the drain waiting for the late requests: it ends with the first of them
+		// finishing, and must have ended well inside the shutdown timeout
+		for j := i0 + 1; j <= ir; j++ {
+			if f := strings.Fields(r.log[j]); len(f) >= 2 && f[0] == "Q" {
+				if k, err := strconv.Atoi(f[1]); err == nil && k < len(r.sc.Reqs) && r.sc.Reqs[k].Kind == "D" {
+					x = j
+					break
+				}
+			}
+		}
+		if x > 0 && r.at[x].Sub(r.at[x-1]) > 800*time.Millisecond {
+			return false
+		}
+	}
 	if k := r.sc.slowStop(); k >= 0 {
 		if bstar >= 0 || stuck {
 			return true // two waits: nothing to check against (the generator does not build these)
@@ -738,6 +782,15 @@ func (r *runner) drainer() {
 		c.Close()
 		time.Sleep(500 * time.Microsecond)
 	}
+	if r.sc.shortWrite() {
+		// the requests finish late in the drain: after the write timeout, well before the shutdown timeout
+		select {
+		// (250 ms: net/http's Shutdown looks at the connections at ~255 ms, ~511 ms and then not before ~1011 ms — a
+		// request that finishes after the 511 ms look would be reported as a drain timeout by net/http itself)
+		case <-time.After(250 * time.Millisecond):
+		case <-r.startDone:
+		}
+	}
 	for _, k := range ds {
 		if r.started() {
 			return
@@ -845,6 +898,9 @@ func (r *runner) reloadHook(i int) func(context.Context) error {
 			}
 			if rd.CancelAt == i {
 				r.signal()
+				if !prog {
+					r.watchOverlap()
+				}
 				if prog {
 					select {
 					case <-r.startDone:
@@ -865,6 +921,9 @@ func (r *runner) reloadHook(i int) func(context.Context) error {
 				blockErr = ctx.Err()
 			case <-r.abandonCh:
 				blockErr = errInjected
+			}
+			if !prog {
+				r.watchOverlap()
 			}
 			if prog {
 				select {
@@ -893,12 +952,13 @@ func (r *runner) reloadHook(i int) func(context.Context) error {
 // pairRendezvous (inside the first hook of round A): start round B concurrently and wait until B is
 // parked on the reload mutex — or has entered a hook, which is the overlap the property forbids.
 func (r *runner) pairRendezvous(b int) {
+	ctxB, cancelB := context.WithCancel(context.WithValue(r.ctx, roundKey{}, b)) // cancelled only if the scenario says so
 	started := make(chan struct{})
 	done := make(chan struct{})
 	go func() {
 		r.pairGID.Store(curGID())
 		close(started)
-		r.roundRes[b] = r.callReload(b)
+		r.roundRes[b] = r.callReloadCtx(ctxB)
 		close(done)
 	}()
 	<-started
@@ -924,10 +984,39 @@ func (r *runner) pairRendezvous(b int) {
 		}
 		time.Sleep(200 * time.Microsecond)
 	}
-	if !confirmed {
+	if !confirmed && !r.sc.Rounds[b].CtxEnds {
 		r.notes = append(r.notes, "pair-unconfirmed")
 	}
+	if r.sc.Rounds[b].CtxEnds {
+		// the caller of round B gives up waiting (its request was cancelled): Reload is not context-aware while
+		// it waits its turn, so B still runs after A — and whatever B does, later reloads must still get their turn
+		cancelB()
+	}
 	r.pairDone = done
+}
+
+// watchOverlap (inside a hook of a round started by SIGHUP, right after the stop signal): such a hook runs
+// on the goroutine of Start, so nothing of the shutdown sequence can happen before it returns. Wait a
+// moment to see whether something is logged all the same. Bounded: on correct code nothing can come, the
+// wait only costs its 250 ms; an overlap that comes later is merely missed.
+func (r *runner) watchOverlap() {
+	r.mu.Lock()
+	n0 := len(r.log)
+	r.mu.Unlock()
+	for dl := time.Now().Add(250 * time.Millisecond); time.Now().Before(dl); time.Sleep(time.Millisecond) {
+		r.mu.Lock()
+		n, last := len(r.log), ""
+		if n > 0 {
+			last = r.log[n-1]
+		}
+		r.mu.Unlock()
+		if n > n0 && last == "r" {
+			return
+		}
+		if r.abandoned.Load() {
+			return
+		}
+	}
 }
 
 // pairRendezvousHup (inside the first hook of the programmatic round A): send SIGHUP, so that the event
@@ -961,8 +1050,16 @@ func (r *runner) callReload(round int) (res int) {
 			res = 9
 		}
 	}()
-	err := r.a.Reload(context.WithValue(r.ctx, roundKey{}, round))
-	if err != nil {
+	return r.callReloadCtx(context.WithValue(r.ctx, roundKey{}, round))
+}
+
+func (r *runner) callReloadCtx(ctx context.Context) (res int) {
+	defer func() {
+		if p := recover(); p != nil {
+			res = 9
+		}
+	}()
+	if err := r.a.Reload(ctx); err != nil {
 		return 1
 	}
 	return 0
@@ -976,6 +1073,34 @@ func (r *runner) lateHup() {
 	}
 	_ = syscall.Kill(os.Getpid(), syscall.SIGHUP)
 	time.Sleep(60 * time.Millisecond)
+}
+
+// hijacked: the handler takes over its connection, sends the head and the first half of the response,
+// and finishes the exchange when it is released — after Start has returned.
+func (r *runner) hijacked(c *app.Context, k int, q *reqState) {
+	hj, ok := c.Response.(http.Hijacker)
+	if !ok {
+		r.discard = "the response writer is not an http.Hijacker"
+		_ = c.String(500, "no hijacker")
+		close(q.entered)
+		return
+	}
+	conn, rw, err := hj.Hijack()
+	if err != nil {
+		r.discard = "Hijack: " + err.Error()
+		close(q.entered)
+		return
+	}
+	defer conn.Close()
+	half := len(payload) / 2
+	fmt.Fprintf(rw, "HTTP/1.1 200 OK\r\nContent-Type: text/plain\r\nContent-Length: %d\r\nConnection: close\r\n\r\n", len(payload))
+	rw.WriteString(payload[:half])
+	rw.Flush()
+	r.ev(fmt.Sprintf("q %d", k))
+	close(q.entered)
+	<-q.release
+	rw.WriteString(payload[half:])
+	rw.Flush()
 }
 
 // start calls the entry point of the scenario.
@@ -1037,12 +1162,16 @@ func (r *runner) build() error {
 	if sc.Listen == lBad {
 		host = "192.0.2.1" // TEST-NET-1: not an address of this machine, bind fails with EADDRNOTAVAIL
 	}
+	serverOpts := []app.ServerOption{app.WithShutdownTimeout(time.Second)}
+	if sc.shortWrite() {
+		serverOpts = append(serverOpts, app.WithReadTimeout(100*time.Millisecond), app.WithWriteTimeout(120*time.Millisecond))
+	}
 	opts := []app.Option{
 		app.WithServiceName("verif-c09"),
 		app.WithServiceVersion("1.0.0"),
 		app.WithHost(host),
 		app.WithPort(r.appPort),
-		app.WithServer(app.WithShutdownTimeout(time.Second)),
+		app.WithServer(serverOpts...),
 	}
 	// the logger writes to a buffer of the harness: app.New puts it into startup-buffering mode, and
 	// whether what is logged during start-up ever comes out is part of the observation
@@ -1062,7 +1191,9 @@ func (r *runner) build() error {
 		// traces go to a collector of our own: an export request arriving there *is* the flush
 		obs = append(obs, app.WithTracing(tracing.WithOTLPHTTP("http://"+r.colAddr)))
 	}
-	opts = append(opts, app.WithObservability(obs...))
+	if !sc.shortWrite() {
+		opts = append(opts, app.WithObservability(obs...))
+	}
 	a, err := app.New(opts...)
 	if err != nil {
 		return err
@@ -1080,6 +1211,16 @@ func (r *runner) build() error {
 			return
 		}
 		q := r.reqs[k]
+		if sc.shortWrite() {
+			// a handler that knows it may take long lifts the write deadline the server put on its connection
+			if err := http.NewResponseController(c.Response).SetWriteDeadline(time.Time{}); err != nil {
+				r.discard = "the write deadline cannot be lifted through this response writer: " + err.Error()
+			}
+		}
+		if sc.Reqs[k].Kind == "J" {
+			r.hijacked(c, k, q)
+			return
+		}
 		r.ev(fmt.Sprintf("q %d", k))
 		close(q.entered)
 		logIt := <-q.release
@@ -1307,7 +1448,8 @@ func (r *runner) run() obsT {
 					metUp = r.probeMetrics()
 				}
 			}
-			r.fin = [3]bool{r.probeApp(), metUp, !r.logBuf.contains(startupMarker)}
+			// (without a logger nothing can be held back)
+			r.fin = [3]bool{r.probeApp(), metUp, !sc.shortWrite() && !r.logBuf.contains(startupMarker)}
 			if sc.Tracing && time.Since(r.t0) > 4500*time.Millisecond {
 				r.discard = "case took longer than the tracer's periodic export interval"
 			}
@@ -1374,6 +1516,22 @@ func (r *runner) run() obsT {
 	}
 	// requests that were never released: let them go (not logged), their result is n/a
 	for k, q := range r.reqs {
+		if sc.Reqs[k].Kind == "J" {
+			// a hijacked exchange goes on after Start has returned: finish it now, the verdict is the client's
+			select {
+			case <-q.entered:
+			default:
+				o.Reqs = append(o.Reqs, 2)
+				continue
+			}
+			r.releaseReq(k, false)
+			if q.complete {
+				o.Reqs = append(o.Reqs, 1)
+			} else {
+				o.Reqs = append(o.Reqs, 0)
+			}
+			continue
+		}
 		if !q.released.Load() {
 			o.Reqs = append(o.Reqs, 2)
 			r.releaseReq(k, false)
@@ -1402,7 +1560,7 @@ func (r *runner) run() obsT {
 	if o.Discard == "" && stallEpoch.Load() != epoch0 {
 		o.Discard = "the machine stalled during the case (scheduling gap > 400 ms)"
 	}
-	if o.Discard == "" && r.drainPending.Load() && (r.res == 0 || r.res == 3) {
+	if o.Discard == "" && r.drainPending.Load() && (r.res == 0 || r.res == 3) && !sc.shortWrite() {
 		// Start went through the drain and returned while the drainer still held requests it was to release
 		// as soon as the listener closed: the drainer was late (or starved), the case says nothing
 		o.Discard = "timing could not be forced (the drainer did not get to release its requests during the drain)"
@@ -1633,6 +1791,9 @@ func emit(id string, sc *Scenario, o obsT, st *hx.Stats) string {
 		}
 		if sc.slowStop() >= 0 {
 			st.Count("slow_onstop_hook")
+		}
+		if sc.shortWrite() {
+			st.Count("short_write_timeout_late_drain")
 		}
 		if len(sc.Reqs) > 0 {
 			st.Count("inflight")
